@@ -200,7 +200,8 @@ class MCLevyCopulaSimulation:
                 for j in range(i + 1, dimension):
                     adj_matrix[i, j] = adj_matrix[j, i] = next(outputs)
 
-        variance_matrix = np.dot(adj_matrix, adj_matrix.T) + model_variance
+        # adj_matrix holds the (co)variances of the jumps inside the central cell (see vol_adjustment_ij), not volatilities
+        variance_matrix = adj_matrix + model_variance
         diffusion_matrix = scipy.linalg.sqrtm(variance_matrix)
         self.diffusion_matrix = diffusion_matrix
 
